@@ -29,6 +29,7 @@ type schedTask struct {
 	method string // repository method it is parked at
 	parked bool
 	done   bool
+	inTx   bool          // (sql-statement granularity) between BEGIN and COMMIT; touched by the task's goroutine only
 	inAdd  atomic.Bool   // the submitter is inside Chains.Add (its own flag: no other task synchronises on it)
 	rel    chan struct{} // the scheduler's go-ahead, per task: two tasks released together share nothing on their way
 }
@@ -79,6 +80,25 @@ func goid() int64 {
 	return id
 }
 
+// sqlLabel is a short, stable name for a statement: its verb and the first characters that tell statements apart.
+func sqlLabel(q string) string {
+	f := strings.Fields(q)
+	if len(f) == 0 {
+		return "?"
+	}
+	out := strings.ToUpper(f[0])
+	for i, w := range f {
+		u := strings.ToUpper(w)
+		if (u == "FROM" || u == "INTO" || u == "UPDATE" || u == "WHERE") && i+1 < len(f) {
+			out += " " + u + " " + strings.Trim(f[i+1], "(),")
+		}
+	}
+	if len(out) > 60 {
+		out = out[:60]
+	}
+	return out
+}
+
 func (s *schedSim) bind(t *schedTask) {
 	s.mu.Lock()
 	if s.byG == nil {
@@ -93,6 +113,9 @@ func (s *schedSim) hook(m string, _ bool) error {
 	t := s.byG[goid()]
 	s.mu.Unlock()
 	if t != nil {
+		if !strings.HasPrefix(m, "sql:") {
+			t.inTx = false // a repository call never starts inside a transaction (a rolled-back one is over by now)
+		}
 		s.yield(t, m)
 	}
 	return nil
@@ -106,7 +129,39 @@ func schedsimExec(r *Run) {
 	w.WrapRepo = func(repo *repository.Repositories) {
 		repo.Headers = &hookedHeaders{in: repo.Headers, Before: s.hook}
 	}
-	w.Open()
+	// a third of the runs (never the free-running race class) lower the yield points from repository calls to SQL
+	// statements: the world sits on the wrapper driver, and a task also parks before every read statement, before
+	// every BEGIN and before every write statement outside a transaction. Nothing parks between BEGIN and COMMIT (a
+	// second writer would wait for the SQLite write lock in real time). A repository method made of two statements is
+	// then two steps, and another task's committed write may land between them.
+	sqlGrain := r.Opt["race"] != "1" && r.Opt["overlap"] != "1" && t.Chance(1, 3, "sql-statement-granularity")
+	r.Cfg["granularity"] = map[bool]string{false: "repository-call", true: "sql-statement"}[sqlGrain]
+	if sqlGrain {
+		sqlQueryHook = func(q string) { _ = s.hook("sql:"+sqlLabel(q), false) }
+		sqlHook = func(op, q string) {
+			s.mu.Lock()
+			tk := s.byG[goid()]
+			s.mu.Unlock()
+			if tk == nil {
+				return
+			}
+			switch op {
+			case "begin":
+				s.yield(tk, "sql:BEGIN")
+				tk.inTx = true
+			case "exec":
+				if !tk.inTx {
+					s.yield(tk, "sql:"+sqlLabel(q))
+				}
+			case "committed":
+				tk.inTx = false
+			}
+		}
+		defer func() { sqlQueryHook, sqlHook = nil, nil }()
+		w.OpenSim()
+	} else {
+		w.Open()
+	}
 	defer func() {
 		s.mu.Lock()
 		s.closed = true
@@ -243,6 +298,10 @@ func schedsimExec(r *Run) {
 	overlap := t.Chance(1, 8, "overlapping-adds")
 	if r.Opt["overlap"] == "1" {
 		overlap = true
+	}
+	if sqlGrain {
+		overlap = false // (two writers parked around one SQLite write lock would wait for each other in real time)
+		r.Probe("sql-statement-granularity")
 	}
 	r.Cfg["overlapping_adds"] = overlap
 	last := -1
